@@ -328,6 +328,28 @@ def a64_index(imm: int, kind: int, sh1: int, sh2: int, sameindex: bool) -> bool:
     return verdict(check(e, 1, len(ker), expect, 4, 1), nontrivial=expect, sample=lambda: {"imm": imm, "bump": A64_BUMPS[k], "shifts": [a, b], "sameindex": sameindex, "dep": expect})
 
 
+def a64_copy_add(d1: int, d2: int, imm: int, sub: bool, via_copy: bool, bump2: bool, imm2: int) -> bool:
+    """
+    post: _
+    """
+    # copy-plus-constant into ANOTHER register: add x4, x1, #imm (x4 = x1 + imm); optional further
+    # bump of the copy; load through the copy or through the unchanged original
+    if skip(locals()):
+        return True
+    ker = [inst("aarch64", "str x3, [x1, #8]", 1, disp=d1),
+           inst("aarch64", "sub x4, x1, #1" if sub else "add x4, x1, #1", 2, imm=imm)]
+    if bump2:
+        ker.append(inst("aarch64", "add x4, x4, #1", 3, imm=imm2))
+    ker.append(inst("aarch64", "ldr x5, [x4, #8]" if via_copy else "ldr x5, [x1, #8]", len(ker) + 1, disp=d2))
+    e = run("aarch64", ker, 3, 1)
+    if via_copy:
+        expect = d2 + (-imm if sub else imm) + (imm2 if bump2 else 0) - d1 == 0
+    else:
+        expect = d2 - d1 == 0
+    return verdict(check(e, 1, len(ker), expect, 3, 1), nontrivial=expect,
+                   sample=lambda: {"d1": d1, "d2": d2, "imm": imm, "sub": sub, "via_copy": via_copy, "bump2": bump2, "imm2": imm2, "dep": expect})
+
+
 def a64_two_bumps(d1: int, d2: int, i1: int, i2: int, k1: int, k2: int) -> bool:
     """
     pre: 1 <= k1 < 5 and 1 <= k2 < 5
@@ -394,6 +416,7 @@ CELLS = {
     "a64_nodisp": {"fn": a64_nodisp, "bound": _B + "one side without offset", "budget": {"quick": 150, "thorough": 600}},
     "a64_index": {"fn": a64_index, "bound": "[x1, x2, lsl #n]: shifts 0..3 both sides, bumps on base or index (symbolic immediates), same/different index", "budget": {"quick": 170, "thorough": 900}},
     "a64_indexed_store": {"fn": a64_indexed_store, "bound": _B + "post- or pre-indexed store directly followed by load [x1,#d2]", "budget": {"quick": 150, "thorough": 600}},
+    "a64_copy_add": {"fn": a64_copy_add, "bound": _B + "add/sub x4, x1, #imm (copy plus constant into another register), optional add on the copy, load via copy or original", "budget": {"quick": 150, "thorough": 600}},
     "a64_two_bumps": {"fn": a64_two_bumps, "tiers": ("thorough",), "bound": _B + "two bumps incl. post/pre-index", "budget": {"thorough": 900}},
     "a64_store_between": {"fn": a64_store_between, "bound": _B + "second store between", "budget": {"quick": 150, "thorough": 600}},
 }
